@@ -340,6 +340,31 @@ def cppmon(config, flavour):
     return harness(config, flavour, 'cppmon', extra_flags=['-std=c++11', '-I' + t, '-Wno-deprecated-declarations'], cxx=True)
 
 
+def java_bundle(config):
+    """pure-Java implementation compiled against a stub Complex + xraylib.dat generated from the same data root; returns classpath dir"""
+    g = gen()
+
+    def mk(d):
+        jsrc = os.path.join(HARNESS, 'java')
+        # data dump: java/pr_data_java.c linked with the same prdata objects as the C generator
+        objs = [os.path.join(g, f) for f in os.listdir(g) if f.endswith('.o') and f != 'pr_data.o']
+        _run(['gcc', '-O1', '-g'] + CORE + _incs(g) + [os.path.join(REPO, 'java', 'pr_data_java.c')] + objs + ['-o', os.path.join(d, 'prdata_java'), '-lm'])
+        tmp = tempfile.mkdtemp(prefix='xv-jroot-')
+        try:
+            data_root(config, tmp)
+            _run([os.path.join(d, 'prdata_java'), tmp], cwd=d)
+        finally:
+            shutil.rmtree(tmp, ignore_errors=True)
+        if not os.path.exists(os.path.join(d, 'xraylib.dat')):
+            raise BuildError('pr_data_java did not produce xraylib.dat')
+        srcs = sorted(glob.glob(os.path.join(REPO, 'java', '*.java'))) + [os.path.join(jsrc, 'JMon.java'),
+               os.path.join(jsrc, 'org', 'apache', 'commons', 'math3', 'complex', 'Complex.java')]
+        _run(['javac', '-encoding', 'UTF-8', '-nowarn', '-d', d] + srcs)
+    hh = hashlib.sha256()
+    _hash_files(hh, _walk(os.path.join(HARNESS, 'java')))
+    return _target('java-%s-%s' % (config, hh.hexdigest()[:10]), mk)
+
+
 def harness_shared(config, name, extra_flags=()):
     """harness program linked against the *shared* plain library (C16 segment hashing)"""
     L = lib(config, 'plain')
